@@ -37,6 +37,13 @@ Proof.
     destruct (Nat.eqb (fst c) t); [inversion H; assumption | assumption].
 Qed.
 
+Lemma NoDup_app_l {A} (l r : list A) : NoDup (l ++ r) -> NoDup l.
+Proof.
+  induction l as [|x l IH]; cbn; intros H; [constructor|].
+  inversion H as [|? ? Hn Hd]; subst. constructor; [|apply IH, Hd].
+  intros Hin. apply Hn, in_or_app. left. exact Hin.
+Qed.
+
 Lemma NoDup_map_pair (t : nat) (l : list nat) : NoDup l -> NoDup (map (pair t) l).
 Proof.
   induction 1 as [|x l Hx Hl IH]; cbn; constructor; [|exact IH].
@@ -137,7 +144,7 @@ Proof.
       * constructor; cbn [queue waker pc prods appended executed deleted cnt committed_to_sleep];
           auto; try discriminate; try lia.
         rewrite (firstn_S_nth _ _ _ En), app_assoc, <- He. reflexivity.
-    + constructor; rewrite ?Epc; cbn; auto. discriminate.
+    + constructor; rewrite ?Epc; cbn; auto.
   - (* RDel *)
     constructor; cbn; auto.
     + rewrite <- app_assoc, firstn_skipn. exact Ha.
@@ -182,7 +189,7 @@ Proof.
   split; [|eexists; exact Hpre].
   assert (Hnd : NoDup (appended s)).
   { apply NoDup_by_filter. intros t. rewrite (j_thr s HI). apply NoDup_map_pair, seq_NoDup. }
-  rewrite Hpre in Hnd. apply NoDup_app_remove_r in Hnd. exact Hnd.
+  rewrite Hpre in Hnd. apply NoDup_app_l in Hnd. exact Hnd.
 Qed.
 
 Lemma reach_fifo wants tr t :
@@ -201,3 +208,73 @@ Lemma reach_nlw wants tr :
   committed_to_sleep (pc s) = true -> waker s = false ->
   forall c, In c (queue s) -> in_flight s (fst c) = true.
 Proof. cbv zeta. exact (j_nlw _ (run_inv wants tr)). Qed.
+
+(** ---- progress of the reactor on its own (no producer step, no spurious poll return) ---- *)
+Fixpoint rsteps (n : nat) (s : st) : st :=
+  match n with 0 => s | S k => rsteps k (reactor_step s) end.
+
+Lemma skipn_nth {A} (l : list A) n c : nth_error l n = Some c -> skipn n l = c :: skipn (S n) l.
+Proof.
+  revert n. induction l as [|a l IH]; intros [|n] H; cbn in *; try discriminate.
+  - inversion H. reflexivity.
+  - apply IH, H.
+Qed.
+
+Lemma nth_error_lt {A} (l : list A) n : n < length l -> exists c, nth_error l n = Some c.
+Proof.
+  intros H. destruct (nth_error l n) eqn:E; [eauto|]. apply nth_error_None in E. lia.
+Qed.
+
+Lemma batch r : forall s total count,
+  pc s = RRun total count -> total = count + S r -> total <= length (queue s) ->
+  executed (rsteps (S r) s) = executed s ++ firstn (S r) (skipn count (queue s)).
+Proof.
+  induction r as [|r IH]; intros s total count Hpc Ht Hle.
+  - cbn [rsteps]. unfold reactor_step. rewrite Hpc.
+    destruct (nth_error_lt (queue s) count) as [c Hc]; [lia|]. rewrite Hc. cbn [executed].
+    rewrite (skipn_nth _ _ _ Hc). reflexivity.
+  - cbn [rsteps].
+    destruct (nth_error_lt (queue s) count) as [c Hc]; [lia|].
+    assert (Hs : reactor_step s =
+                 mk (queue s) (waker s) (RRun total (S count)) (prods s) (appended s) (executed s ++ [c]) (deleted s)).
+    { unfold reactor_step. rewrite Hpc, Hc. destruct (Nat.eqb_spec (S count) total); [lia | reflexivity]. }
+    rewrite Hs. change (rsteps r (reactor_step ?x)) with (rsteps (S r) x).
+    rewrite (IH _ total (S count)); cbn [pc queue executed]; try reflexivity; try lia.
+    rewrite (skipn_nth _ _ _ Hc). cbn [firstn]. rewrite <- app_assoc. reflexivity.
+Qed.
+
+Lemma idle_progress wants tr :
+  let s := run wants tr in
+  pc s = RSelect ->
+  forall c, In c (queue s) -> in_flight s (fst c) = false ->
+  In c (executed (rsteps (4 + length (queue s)) s)).
+Proof.
+  cbv zeta. intros Hpc c Hin Hfl. pose proof (run_inv wants tr) as HI. set (s := run wants tr) in *.
+  assert (Hw : waker s = true).
+  { destruct (waker s) eqn:Ew; [reflexivity|].
+    rewrite (j_nlw s HI) in Hfl; [discriminate | rewrite Hpc; reflexivity | exact Ew | exact Hin]. }
+  destruct (queue s) as [|c0 q] eqn:Eq; [destruct Hin|].
+  assert (H1 : reactor_step s = set_pc RDrain s).
+  { unfold reactor_step. rewrite Hpc, Hw. reflexivity. }
+  set (s2 := mk (queue s) false RTop (prods s) (appended s) (executed s) (deleted s)).
+  assert (H2 : reactor_step (set_pc RDrain s) = s2) by reflexivity.
+  assert (H3 : reactor_step s2 = set_pc RLen s2).
+  { unfold reactor_step, s2. cbn. rewrite Eq. reflexivity. }
+  assert (H4 : reactor_step (set_pc RLen s2) = set_pc (RRun (length (queue s)) 0) s2) by reflexivity.
+  cbn [plus rsteps]. rewrite H1, H2, H3, H4.
+  change (rsteps (length (c0 :: q)) ?x) with (rsteps (S (length q)) x).
+  erewrite batch; [| cbn [pc set_pc]; reflexivity | rewrite Eq; cbn; reflexivity | unfold s2; cbn; rewrite Eq; cbn; lia].
+  unfold s2. cbn [executed set_pc queue skipn]. apply in_or_app. right. rewrite Eq.
+  change (S (length q)) with (length (c0 :: q)). rewrite firstn_all. exact Hin.
+Qed.
+
+(** ---- examples ---- *)
+Example ex_sleeping_with_settled_call :
+  let s := run [1] [Reactor; Prod 0; Reactor; Prod 0] in
+  pc s = RSelect /\ In (0, 0) (queue s) /\ in_flight s 0 = false /\ waker s = true.
+Proof. vm_compute. auto. Qed.
+
+Example ex_append_during_batch_is_rewoken :
+  let s := run [3] [Prod 0; Prod 0; Reactor; Reactor; Prod 0; Reactor; Prod 0; Reactor; Reactor; Reactor] in
+  committed_to_sleep (pc s) = true /\ queue s = [(0, 1)] /\ executed s = [(0, 0)] /\ waker s = true.
+Proof. vm_compute. auto. Qed.
